@@ -133,7 +133,7 @@ func init() {
 			return "", err
 		}
 		type site struct {
-			pos            token.Pos
+			pos           token.Pos
 			fn, node, arg string
 		}
 		type write struct {
@@ -220,7 +220,12 @@ func init() {
 			if _, ok := st.(*ast.DeferStmt); ok {
 				continue
 			}
-			if is, ok := st.(*ast.IfStmt); ok && is.Init == nil && is.Else == nil && types.ExprString(is.Cond) == "!r.rename" && len(is.Body.List) == 1 {
+			// `if !<receiver>.rename { return }` whatever the receiver is called
+			recvName := "r"
+			if rs.Recv != nil && len(rs.Recv.List) == 1 && len(rs.Recv.List[0].Names) == 1 {
+				recvName = rs.Recv.List[0].Names[0].Name
+			}
+			if is, ok := st.(*ast.IfStmt); ok && is.Init == nil && is.Else == nil && types.ExprString(is.Cond) == "!"+recvName+".rename" && len(is.Body.List) == 1 {
 				if ret, ok := is.Body.List[0].(*ast.ReturnStmt); ok && len(ret.Results) == 0 {
 					guard = true
 				}
